@@ -844,7 +844,10 @@ impl Engine {
         }
         let cq = match self.s.run(sqes) {
             Ok(cq) => cq,
-            Err(f) => {
+            Err(mut f) => {
+                if f.sig.contains("missing-cqe") {
+                    f.what.push_str(&format!("; entries of the batch (user_data, entry): {:x?}", entries.iter().map(|e| (e.ud, format!("{:?}", e.op))).collect::<Vec<_>>()));
+                }
                 // entries may still be in flight: the memory they reference must outlive them
                 std::mem::forget(entries);
                 return Err(f);
